@@ -214,6 +214,17 @@ def check_mask(case, ctx):
         U.check_close(np.asarray(bab.data), f - Tc, 0, 'babinet:' + method, 'babinet(fpm=m) != f - T_(1-m) f', atol=TOL * scale)
         ref, _ = _chain(f, ones - m1f, Q, (0, 0))
         U.check_close(np.asarray(bab.data), f - ref, 0, 'babinet:' + method + ':vs-textbook', 'babinet(fpm=m) != f - textbook T_(1-m) f', atol=TOL * scale)
+        # the same Wavefront object after its public data array was edited in place (phase update, scaling): the result follows the data
+        wh = P.Wavefront(f.copy(), lam, dx)
+        mh = np.array(m1f, copy=True)
+        r1 = np.asarray(ctx.call(wh.to_fpm_and_back, efl, mh, fpm_dx, method=method, shift=sh).data).copy()
+        wh.data *= -2.5
+        r2 = np.asarray(ctx.call(wh.to_fpm_and_back, efl, mh, fpm_dx, method=method, shift=sh).data).copy()
+        U.check_close(r2, -2.5 * T1, 0, tag + ':stale-after-inplace-edit', 'same Wavefront, data scaled in place by -2.5 between two calls: second result != -2.5 * first', atol=TOL * scale * 2.5)
+        mh *= 0.5
+        r3 = np.asarray(ctx.call(wh.to_fpm_and_back, efl, mh, fpm_dx, method=method, shift=sh).data)
+        U.check_close(r3, -1.25 * T1, 0, tag + ':stale-after-inplace-mask-edit', 'same Wavefront and mask array, mask halved in place between two calls', atol=TOL * scale * 2.5)
+        U.check_close(r1, T1, 0, tag + ':result-overwritten', 'an earlier result changed when the method was called again', atol=TOL * scale)
         lyot = U.rng_of(case['seed'], 7).uniform(0, 1, tuple(shape))
         bab2 = ctx.call(w.babinet, efl, lyot, m1, fpm_dx, method=method)
         U.check_close(np.asarray(bab2.data), lyot * (f - Tc), 0, 'babinet:lyot', 'babinet with a Lyot stop != lyot * (f - T_(1-m) f)', atol=TOL * scale)
@@ -256,9 +267,73 @@ def check_identity(case, ctx):
     U.check_close(g, f, 0, b, 'all-pass %dx%d mask over the full band, shift=%r (focal units), pupil %s: field not returned' % (k, k, sh, shape),
                   atol=TOL * max(float(np.abs(f).sum()), 1e-300))
 
+# ---- the executors themselves, with per-axis Q ---------------------------------------------------------------------------------------
+def strat_exec(tier):
+    nmax = {'quick': 14, 'thorough': 36}[tier]
+    ax = U.axis_len(nmax)
+    q = st.one_of(st.sampled_from([1.0, 2.0, 0.5, 1.5]), U.nice_float(0.4, 4).map(lambda v: round(v, 3)))
+    pad = st.one_of(st.just(0), st.integers(0, 5))
+    return st.fixed_dictionaries({
+        'shape': st.one_of(st.tuples(ax, ax).map(list), st.tuples(ax, ax).map(list), ax.map(lambda k: [k, k])),
+        'out': st.one_of(st.tuples(ax, ax).map(list), ax.map(lambda k: [k, k])),
+        'Q': st.one_of(q.map(lambda v: [v, v]), st.tuples(q, q).map(list)), 'scalarQ': st.booleans(), 'pad': st.tuples(pad, pad).map(list),
+        'shift': _shift(), 'method': st.sampled_from(['mdft', 'czt']), 'fwd': st.booleans(), 'kind': U.field_kinds, 'seed': U.seeds, 'layout': U.layouts,
+        'ab': st.tuples(U.nice_float(-2, 2), U.nice_float(-2, 2), U.nice_float(-2, 2), U.nice_float(-2, 2)).map(lambda t: [round(v, 3) for v in t]),
+    })
+
+
+def check_exec(case, ctx):
+    """mdft.dft2/idft2 and czt.czt2/iczt2 called directly with per-axis (or scalar) Q: linear, embedding invariant (Q n constant per axis), transposes."""
+    from prysm.fttools import mdft, czt
+    _reset()
+    shape, out, method, fwd = case['shape'], case['out'], case['method'], case['fwd']
+    ny, nx = shape
+    Q = tuple(case['Q'])
+    scalarQ = case['scalarQ'] and Q[0] == Q[1]
+    ex = mdft if method == 'mdft' else czt
+    fn = {('mdft', True): 'dft2', ('mdft', False): 'idft2', ('czt', True): 'czt2', ('czt', False): 'iczt2'}[(method, fwd)]
+    T0 = getattr(ex, fn)
+    sh = tuple(case['shift'])
+    shifted = any(v != 0 for v in sh)
+    aniso = ny * Q[0] != nx * Q[1]
+    ctx.nt(aniso or shifted or out[0] != out[1])
+    ctx.label(method, fn, 'anisotropic-NQ' if aniso else 'isotropic-NQ', 'scalarQ' if scalarQ else ('peraxisQ' if Q[0] != Q[1] else 'tupleQ'),
+              'square' if ny == nx else 'nonsquare', 'shifted' if shifted else 'unshifted')
+    a = U.relayout(U.field(case['seed'], shape, case['kind'], 1).astype(complex), case.get('layout', 'C'))
+    b = U.field(case['seed'], shape, 'complex', 2)
+    al = complex(case['ab'][0], case['ab'][1])
+    be = complex(case['ab'][2], case['ab'][3])
+
+    def T(f, q=Q, o=tuple(out), s=sh):
+        qq = q[0] if (scalarQ and q is Q) else q
+        return np.asarray(ctx.call(T0, f, qq, o, s))
+    Ta = T(a)
+    U.check_shape(Ta, out, fn)
+    scale = max(float(np.abs(a).sum() + np.abs(b).sum()) / math.sqrt(ny * Q[0] * nx * Q[1]) * (1 + abs(al) + abs(be)), 1e-300)
+    tag = '%s.%s' % (method, fn)
+    U.check_close(T(al * a + be * b), al * Ta + be * T(b), 0, tag + ':linearity', 'T(alpha a + beta b) != alpha T(a) + beta T(b) %s Q=%r ->%s' % (shape, Q, out), atol=TOL * scale)
+    # zero-embedding at constant n*Q per axis (same physical output samples)
+    big = (ny + case['pad'][0], nx + case['pad'][1])
+    Qb = (Q[0] * ny / big[0], Q[1] * nx / big[1])
+    Te = T(U.embed(a, big), Qb)
+    U.check_close(Te, Ta, 0, tag + ':embedding', 'output changed when %s (Q=%r) was zero-embedded in %s (Q=%r), out=%s shift=%r' % (shape, Q, list(big), Qb, out, sh), atol=TOL * scale)
+    # transposition with swapped per-axis arguments.  The executors take shift as (x, y) and Q / samples as (rows, cols)
+    Tt = T(np.ascontiguousarray(a.T), (Q[1], Q[0]), (out[1], out[0]), (sh[1], sh[0]))
+    U.check_close(Tt.T, Ta, 0, tag + ':transposition' + (':anisotropic' if aniso else ''),
+                  'T(f^T; swapped Q/out/shift) != T(f)^T for %s Q=%r ->%s shift=%r' % (shape, Q, out, sh), atol=TOL * scale)
+    # and the textbook sum itself (normalised 1/sqrt(NyQy NxQx)), either sign of the shift
+    errs = []
+    for sgn in ((1, -1) if shifted else (1,)):
+        ref = U.ref_dft(a, Q, tuple(out), (sgn * sh[0], sgn * sh[1]), fwd=fwd)
+        d = (np.abs(Ta) - np.abs(ref)) if shifted else (Ta - ref)      # with a shift the executors may differ from the sum by a pure phase (see C01)
+        errs.append(float(np.abs(d).max()) if np.all(np.isfinite(Ta)) else float('inf'))
+    ctx.require(min(errs) <= TOL * scale * 10, tag + ':vs-textbook' + (':anisotropic' if aniso else ''),
+                '%s %s Q=%r ->%s shift=%r differs from the textbook sum by %.3g (scale %.3g)' % (tag, shape, Q, out, sh, min(errs), scale))
+
 
 CLAUSES = [
     HypClause('transform_linear_embed_transpose', strat_T, check_T, examples={'quick': 400, 'thorough': 2500}, shards={'quick': 8, 'thorough': 16}),
     HypClause('mask_and_back', strat_mask, check_mask, examples={'quick': 300, 'thorough': 2000}, shards={'quick': 8, 'thorough': 16}),
+    HypClause('executors_per_axis_Q', strat_exec, check_exec, examples={'quick': 300, 'thorough': 2000}, shards={'quick': 4, 'thorough': 16}),
     HypClause('allpass_identity', strat_identity, check_identity, examples={'quick': 400, 'thorough': 2500}, shards={'quick': 4, 'thorough': 16}),
 ]
